@@ -16,7 +16,7 @@ PY
 grep -v WARNING /tmp/thorough_list.txt | while read pid h; do
   case " $SKIP " in *" $pid:$h "*) continue;; esac
   t0=$(date +%s)
-  timeout 5400 bin/check $pid --tier thorough --only $h --no-evidence > /tmp/thorough_${pid}_$h.log 2>&1
+  timeout ${TMO:-1800} bin/check $pid --tier thorough --only $h --no-evidence > /tmp/thorough_${pid}_$h.log 2>&1
   rc=$?
   echo "$pid $h rc=$rc $(( $(date +%s) - t0 ))s $(grep -c INCONCLUSIVE /tmp/thorough_${pid}_$h.log) inconcl"
 done
